@@ -123,7 +123,7 @@ Lemma src_distances_run_eq n : forall c2x s,
 Proof.
   induction n as [|n IH]; intros c2x s; [reflexivity|].
   cbn [src_distances_run src_rect_points_run]. unfold src_DistanceIterator_next.
-  cbn [DistanceIterator_points DistanceIterator_center_2x].
+  cbn [DistanceIterator_points DistanceIterator_center_2x]. change 3%nat with rp_fuel.
   destruct (src_rectangle_Points_next rp_fuel s) as [[s' [p|]]|]; cbn [map]; try reflexivity.
   cbn [DistanceIterator_center_2x]. rewrite IH. reflexivity.
 Qed.
